@@ -185,18 +185,33 @@ fn seq_shapes(r: &mut Rng) -> String {
 }
 
 pub fn parser_streams(args: &Args, r: &mut Rng) -> i32 {
-    let episodes = args.num("episodes", 100);
+    let mut episodes = args.num("episodes", 100);
     let out = args.str("out", "trace.ndjson");
     let mut f = BufWriter::new(File::create(&out).expect("create"));
     let mut events = 0u64;
     let mut chars = 0u64;
+    // --shapes: the bounded-exhaustive parameter-shape tokens of C03S straight into the parser, where the
+    // dispatched Function itself is observed (40 tokens per episode, sharded)
+    let shapes: Vec<String> = if args.num("shapes", 0) == 1 {
+        let (shard, shards) = (args.num("shard", 0), args.num("shards", 1));
+        crate::drivers::shape_tokens().into_iter().enumerate().filter(|(i, _)| (*i as u64) % shards == shard).map(|(_, t)| t).collect()
+    } else {
+        Vec::new()
+    };
+    if !shapes.is_empty() {
+        episodes = (shapes.len() as u64 + 39) / 40;
+    }
+    let mut next_shape = 0usize;
     for ep in 0..episodes {
         writeln!(f, "{{\"ev\":\"ep\",\"id\":{},\"drv\":\"C03P\"}}", ep + 1).unwrap();
         writeln!(f, "{{\"ev\":\"pnew\"}}").unwrap();
         let mut p = Parser::new();
-        let n = r.range(3, 20);
+        let n = if shapes.is_empty() { r.range(3, 20) } else { 40.min(shapes.len() - next_shape) };
         for _ in 0..n {
-            let s = match r.n(10) {
+            let s = if !shapes.is_empty() {
+                next_shape += 1;
+                shapes[next_shape - 1].clone()
+            } else { match r.n(10) {
                 0..=3 => seq_shapes(r),
                 4 => gen::sgr(r),
                 5 => gen::control_string(r),
@@ -219,7 +234,7 @@ pub fn parser_streams(args: &Args, r: &mut Rng) -> i32 {
                     v
                 }
                 _ => gen::token(r, &GENERAL, 10, 5),
-            };
+            } };
             let mut line = String::new();
             line.push_str("{\"ev\":\"pf\",\"s\":");
             obs::str_cps(&mut line, &s);
